@@ -378,9 +378,14 @@ class BatchTie:
     and runs them through one Lean driver process; every history must start
     with a line that resets the model's state."""
 
-    def __init__(self, ctx, model, name, skip=None, flush_at=400):
+    def __init__(self, ctx, model, name, skip=None, flush_at=400,
+                 skip_line=None):
         self.ctx, self.model, self.name = ctx, model, name
         self.skip = skip
+        # skip_line(line, impl, lean): a difference on this line is one the
+        # property allows (its direct oracle has already judged the
+        # implementation's answer); counted, not a broken tie
+        self.skip_line = skip_line
         self.flush_at = flush_at
         self.pending = []
 
@@ -403,6 +408,9 @@ class BatchTie:
             for i, (a, b) in enumerate(zip(impl, got)):
                 if a is None:
                     continue      # intermediate line of a composite operation
+                if a != b and self.skip_line and self.skip_line(ls[i], a, b):
+                    self.ctx.count("tie:%s:legal-difference" % self.name)
+                    continue
                 if a != b and not (self.skip and self.skip(a, b)):
                     if os.environ.get("VERIF_DEBUG"):
                         log("DEBUG mismatch in", tag)
